@@ -700,6 +700,16 @@ func (r *run) genDecl(name string, wf bool) inDecl {
 	return d
 }
 
+// boolText: the YAML core-schema spellings of a boolean (true / True / TRUE), chosen by the name
+func boolText(v bool, name string) string {
+	t := [][]string{{"false", "False", "FALSE"}, {"true", "True", "TRUE"}}[b2i(v)]
+	h := 0
+	for _, c := range []byte(name) {
+		h += int(c)
+	}
+	return t[h%3]
+}
+
 func declYAML(b *strings.Builder, ind string, d inDecl, action bool) {
 	if d.NullBody {
 		b.WriteString(ind + yamlKey(d.Name) + ":\n")
@@ -708,7 +718,7 @@ func declYAML(b *strings.Builder, ind string, d inDecl, action bool) {
 	b.WriteString(ind + yamlKey(d.Name) + ":\n")
 	b.WriteString(ind + "  description: d\n")
 	if d.Required != nil {
-		b.WriteString(ind + "  required: " + strconv.FormatBool(*d.Required) + "\n")
+		b.WriteString(ind + "  required: " + boolText(*d.Required, d.Name) + "\n")
 	}
 	switch d.Def {
 	case dfNull:
@@ -1025,7 +1035,7 @@ func calleeYAML(ins []inDecl, secs []secDecl, outs []string) string {
 			for _, s := range secs {
 				b.WriteString("      " + yamlKey(s.Name) + ":\n")
 				if s.Required != nil {
-					b.WriteString("        required: " + strconv.FormatBool(*s.Required) + "\n")
+					b.WriteString("        required: " + boolText(*s.Required, s.Name) + "\n")
 				}
 			}
 		}
